@@ -1,5 +1,5 @@
 # props/C07.py — fixed_vector behaves as a bounded sequence, including copy, move and assignment
-from props.vec_common import ctor_cases, before_begin_cases, alias_cases, VecCheck, exhaustive, fault_cases, random_case, malformed_cases, small_alphabet_cases
+from props.vec_common import forms_cases, large_cases, ctor_cases, before_begin_cases, alias_cases, VecCheck, exhaustive, fault_cases, random_case, malformed_cases, small_alphabet_cases
 
 
 class C07(VecCheck):
@@ -54,6 +54,17 @@ class C07(VecCheck):
             yield c, "ctor-sources-faults-T"
         for c in exhaustive("P", caps, 2 if tier == "quick" else 3, True):
             yield c, "exh-P"
+        for v in ("C", "M", "P", "S", "Q", "T"):
+            for c in forms_cases(v, range(1, 4)):
+                yield c, "forms-" + v
+        for v in ("S", "Q"):
+            for c in exhaustive(v, caps, 2 if tier == "quick" else 3, v == "Q" or tier == "thorough"):
+                yield c, "exh-" + v
+        for c in ctor_cases("S", caps):
+            yield c, "ctor-sources-S"
+        for v, cap in (("P", 70), ("C", 70), ("S", 66), ("Q", 66)) + ((("P", 260), ("C", 130)) if tier == "thorough" else ()):
+            for c in large_cases(v, cap):
+                yield c, "large"
         for c in exhaustive("C", caps, 3, True):
             yield c, "exh3-C"
         for c in small_alphabet_cases("C", caps, 4 if tier == "quick" else 5):
